@@ -70,6 +70,7 @@ package jt808
 //@   ensures C01.minlen: len(result) >= 2 + len(data)
 //@   ensures C01.delims: result[0] == 0x7e && result[len(result)-1] == 0x7e
 //@   ensures C01.nodelim: forall(j, 1, len(result)-1, result[j] != 0x7e)
+//@   ensures C01.codes: forall(j, 1, len(result)-1, result[j] == 0x7d ==> result[j+1] == 1 || result[j+1] == 2)
 //@   ensures C01.plain: forall(k, 0, len(data), !special(old(data[k])) ==> result[1+k+old(sc(data,k))] == old(data[k]))
 //@   ensures C01.pair: forall(k, 0, len(data), special(old(data[k])) ==> result[1+k+old(sc(data,k))] == 0x7d && result[2+k+old(sc(data,k))] == scode(old(data[k])))
 //@   loop 1 invariant pos: 0 <= index && index <= i && i <= len(data)
@@ -79,6 +80,7 @@ package jt808
 //@   loop 1 invariant blen: buflen(buf) == 1 + index + old(sc(data, index))
 //@   loop 1 invariant first: bufat(buf, 0) == 0x7e
 //@   loop 1 invariant nodelim: forall(j, 1, buflen(buf), bufat(buf, j) != 0x7e)
+//@   loop 1 invariant bcodes: forall(j, 1, buflen(buf), bufat(buf, j) == 0x7d ==> j + 1 < buflen(buf) && (bufat(buf, j+1) == 1 || bufat(buf, j+1) == 2))
 //@   loop 1 invariant bbound: forall(k, 0, index, 2+k+old(sc(data,k)) <= buflen(buf))
 //@   loop 1 invariant bplain: forall(k, 0, index, !special(old(data[k])) ==> bufat(buf, 1+k+old(sc(data,k))) == old(data[k]))
 //@   loop 1 invariant bpair: forall(k, 0, index, special(old(data[k])) ==> bufat(buf, 1+k+old(sc(data,k))) == 0x7d && bufat(buf, 2+k+old(sc(data,k))) == scode(old(data[k])))
@@ -169,6 +171,7 @@ package jt808
 //@   ensures C01.fresh: fresh(result)
 //@   ensures C01.delims: len(result) >= 2 && result[0] == 0x7e && result[len(result)-1] == 0x7e
 //@   ensures C01.nodelim: forall(j, 1, len(result)-1, result[j] != 0x7e)
+//@   ensures C01.codes: forall(j, 1, len(result)-1, result[j] == 0x7d ==> result[j+1] == 1 || result[j+1] == 2)
 //@   precall append#2 f1: framed()
 //@   precall append#3 f2: framed()
 //@   precall append#4 f3: framed()
@@ -205,3 +208,38 @@ package jt808
 //@ func (*BodyProperty).String
 //@   mode contract
 //@   modifies nothing
+
+// ---------------------------------------------------------------------------------------------
+// C01, the composition unescape(escape(d)) == d. escpost(d, e) is escape's postcondition (each conjunct is an ensures
+// clause of escape above); the linking lemma relates the two counting functions: below the image of input position i
+// the escaped text contains exactly sc(d, i) escape leads.
+// ---------------------------------------------------------------------------------------------
+//@ spec escpost(d []byte, e []byte) bool = len(e) == 2 + len(d) + sc(d, len(d)) && e[0] == 0x7e && e[len(e)-1] == 0x7e && forall(j, 1, len(e)-1, e[j] != 0x7e) && forall(j, 1, len(e)-1, e[j] == 0x7d ==> e[j+1] == 1 || e[j+1] == 2) && forall(k, 0, len(d), !special(d[k]) ==> e[1+k+sc(d,k)] == d[k]) && forall(k, 0, len(d), special(d[k]) ==> e[1+k+sc(d,k)] == 0x7d && e[2+k+sc(d,k)] == scode(d[k]))
+//@ lemma link(d []byte, e []byte, i int): escpost(d, e) && 0 <= i && i <= len(d) ==> ec(e, 1+i+sc(d,i)) == sc(d,i) by induction i from 0 trigger sc(d, i)
+// the byte before the image of input position i is never an escape lead (it is a delimiter, a plain byte or a code)
+//@ lemma prev(d []byte, e []byte, i int): escpost(d, e) && 0 <= i && i <= len(d) ==> i == 0 || e[i+sc(d,i)] != 0x7d by induction i from 0 trigger sc(d, i)
+// the count of special bytes is monotone
+//@ lemma scMono(d []byte, j int): forall(i, 0, j+1, sc(d, i) <= sc(d, j)) by induction j from 0 trigger sc(d, j)
+//@ func rtUnescape
+//@   mode contract
+//@   modifies nothing
+//@   requires C01.in: len(d) >= 1 && escpost(d, e)
+//@   use link(d, e)
+//@   use prev(d, e)
+//@   use scMono(d)
+//@   focus inverse: in link prev scMono content len iff scBound ecBound
+//@   focus len: in link prev scMono content iff scBound ecBound
+//@   focus ok: in link prev scMono iff scBound ecBound
+//@   use scBound(d)
+//@   use ecBound(e)
+//@   ensures C01.ok: result1 == nil
+//@   ensures C01.len: result1 == nil ==> len(result0) == len(d)
+//@   ensures C01.inverse: result1 == nil ==> forall(i, 0, len(d), mention(e[1+i+sc(d,i)]) ==> result0[i] == old(d[i]))
+// the composition on the real functions: unescape(escape(d)) == d for every non-empty d (escape of the empty payload is
+// "7e 7e", which unescape rejects as too short)
+//@ func rtEscape
+//@   requires C01.nonempty: len(d) >= 1
+//@   use scBound(d)
+//@   ensures C01.rt.ok: result1 == nil
+//@   ensures C01.rt.len: len(result0) == len(d)
+//@   ensures C01.rt.same: forall(i, 0, len(d), result0[i] == old(d[i]))
